@@ -156,9 +156,9 @@ func c14RandomCall(r *gen.Rand, handlerSeq *int32) amCall {
 }
 
 func c14(c *core.Ctx) {
-	n := c.N(400, 20000)
+	n := c.N(400, 200000)
 	if c.Config == "race" {
-		n = c.N(300, 8000)
+		n = c.N(300, 60000)
 	}
 	c.Section("histories", n, func(i int64, r *gen.Rand) {
 		c14History(c, i, r)
